@@ -16,7 +16,7 @@ import time
 from .. import selfcheck
 from ..refmodel import Model
 from . import build
-from .java import JavaHarness, JavaError, script_excludes, class_name
+from .java import JavaHarness, JavaError, script_excludes, auto_exclude, supported
 
 HERE = build.VERIF
 
@@ -38,10 +38,19 @@ def run(verbose=False):
     ok = 0
     bad = []
     times = {}
+    ok_prefilter = []
     for e in ("le", "be"):
         f, vec = selfcheck.load(e)
         text = open(os.path.join(HERE, "corpus/canonical/%s_test_file.pdl" % e)).read()
         m = Model(f)
+        # the static pre-filter must agree with what the project itself excludes
+        auto = set(auto_exclude(f))
+        if auto != set(exclude) or supported(f, exclude):
+            bad.append(("%s canonical file" % e, "auto_exclude differs from the script's list: only auto %s, only script %s; "
+                        "remaining diagnoses %s" % (sorted(auto - set(exclude)), sorted(set(exclude) - auto),
+                                                    supported(f, exclude)[:5])))
+        else:
+            ok_prefilter.append(e)
         h = JavaHarness("selftest_" + e, f, text, exclude=exclude)
         h.generate()
         todo = [c for c in cases(vec, exclude) if c[0] in h.info.dm and c[1] in h.info.dm]
@@ -99,6 +108,7 @@ def run(verbose=False):
         times[e] = dict(h.timings, run=time.time() - t0, vectors=len(todo),
                         classes=len(h.generated_files))
         h.close()
+    times["prefilter_matches_script_excludes"] = ok_prefilter
     return ok, bad, times
 
 
